@@ -293,6 +293,23 @@ def parseModDeclWith (spec : Bool) (m : Json) : R (ModDecl CDT CVal) := do
 
 def parseModDecl (m : Json) : R (ModDecl CDT CVal) := parseModDeclWith false m
 
+/-- a file as (directory, file name); a file given by its full path has directory "" -/
+def parseFileRef (j : Json) : R (String × String) := do
+  match ← arr j with
+  | [d, f] => return ((← d.getStr?), (← f.getStr?))
+  | _ => throw "bad file reference"
+
+def filesJson (fs : List (String × String)) : Json := jarr (fs.map fun f => jarr [Json.str f.1, Json.str f.2])
+
+/-- `files`: what exists, `dirs`: the configuration directories in order, `refs`: `{"name": n}` or `{"path": p}` -/
+def parseLookup (j : Json) : R ((String → String → Bool) × List String × List CfgRef) := do
+  let files ← (← fldArr j "files").mapM parseFileRef
+  let refs ← (← fldArr j "refs").mapM fun r => do
+    match r.getObjVal? "path" with
+    | .ok p => return CfgRef.path (← p.getStr?)
+    | .error _ => return CfgRef.name (← fldStr r "name")
+  return ((fun d f => files.contains (d, f)), ← fldStrs j "dirs", refs)
+
 def handle (j : Json) : R Json := do
   let k ← fldStr j "k"
   match k with
@@ -305,7 +322,7 @@ def handle (j : Json) : R Json := do
     let c ← parseClass (← fld j "cls")
     let some cfg ← parseCfgAny false (← fld j "cfg")
       | return Json.mkObj [("ok", Json.bool false), ("errors", jarr []), ("inst", Json.null), ("loads", Json.bool false)]
-    match applyConfig ops c cfg with
+    match applyConfigU ops unitOps c cfg with
     | .ok i => return Json.mkObj [("ok", Json.bool true), ("errors", jarr []),
                                   ("inst", instJson (← parseGroups (← fld j "cls")) i)]
     | .error es => return Json.mkObj [("ok", Json.bool false), ("errors", jarr (es.map errJson)), ("inst", Json.null)]
@@ -317,8 +334,9 @@ def handle (j : Json) : R Json := do
       | .arr _ => pure true
       | w => do pure (writtenOkB (← parseWritten w).args)
     return Json.mkObj [("offending", Json.bool (offendingB ops c cfg)),
-                       ("hyp", Json.bool (wellFormedB c && wok)),
-                       ("applied", Json.bool (appliedB ops glue c cfg o)),
+                       ("hyp", Json.bool (wellFormedB c && wok && valueTypedB ops c cfg)),
+                       ("applied", Json.bool (appliedB ops unitOps glue c cfg o)),
+                       ("mainunit", jopt Json.str (mainUnit ops unitOps c cfg)),
                        ("modprops", Json.bool (modPropsB glue c cfg o)),
                        ("writes", Json.bool (writesB ops glue c cfg o)),
                        ("rejected", Json.bool (rejectedB ops c cfg o)),
@@ -364,6 +382,15 @@ def handle (j : Json) : R Json := do
     let files ← (← fldArr j "files").mapM parseFile       -- per-file dicts as `process_file` produced them
     let m ← parseMerged (← fld j "merged")
     return Json.mkObj [("ok", Json.bool (mergeB (· == ·) files m))]
+  | "lookup" =>          -- which files a list of configuration references stands for, per the model of to_config_path
+    let (isFile, dirs, refs) ← parseLookup j
+    return Json.mkObj [("loaded", jopt filesJson (resolveAll isFile dirs refs))]
+  | "judge_lookup" =>
+    let (isFile, dirs, refs) ← parseLookup j
+    let lj ← fld j "loaded"
+    let loaded ← if lj.isNull then pure none else some <$> (do (← arr lj).mapM parseFileRef)
+    return Json.mkObj [("ok", Json.bool (lookupB isFile dirs refs loaded)),
+                       ("expected", jarr (refs.map fun r => jopt (fun f => jarr [Json.str f.1, Json.str f.2]) (fileFor isFile dirs r)))]
   | _ => throw s!"C10: unknown verb {k}"
 
 end Frappy.Drive.C10
